@@ -35,6 +35,7 @@ type dscenario struct {
 	checkbanner string // value in the config file, "" = not configured
 	ha          string // PAN-OS HA answer
 	needEnable  bool
+	enableUnset bool // ASA: no enable password configured on the device
 	hostKeyQ    bool
 	pass        string
 	key         string
@@ -133,7 +134,7 @@ func runDialogue(scr *core.Scratch, sc *dscenario, o runOpts) *drun {
 		flavor := strings.ToLower(sc.devType)
 		ssh = &sim.SSH{Flavor: flavor, Hostname: host, Banner: sc.banner, Pass: sc.secretPass(),
 			Cisco: ciscomodel.Load(sc.device, sc.devType == "IOS"), Dev: o.dev, Banners: o.banners, BannersByText: o.bannersByText,
-			NeedEnable: sc.needEnable, HostKeyQ: sc.hostKeyQ, PrepNoop: sc.prepNoop, InfoFor: sc.infoFor}
+			NeedEnable: sc.needEnable, EnableUnset: sc.enableUnset, HostKeyQ: sc.hostKeyQ, PrepNoop: sc.prepNoop, InfoFor: sc.infoFor}
 		r.before = ssh.Cisco.Print()
 	case "Linux":
 		lm, err := linuxmodel.Load(sc.device)
@@ -251,6 +252,9 @@ func runDialogue(scr *core.Scratch, sc *dscenario, o runOpts) *drun {
 		r.sessions = ssh.Sessions
 		if ssh.Cisco != nil {
 			r.after = ssh.Cisco.Print()
+			if ssh.EnablePassSet > 0 {
+				r.after += "enable password ***** pbkdf2\n"
+			}
 		} else {
 			r.after = ssh.Linux.Print(false)
 		}
